@@ -1,7 +1,7 @@
 from typing import Any, List, Union, overload
 
-from .array import BoolArray1D, BoolArray2D, IntArray1D, IntArray2D, _elementwise
-from .expr import BoolExpr, BoolExprLike, IntExpr, IntExprLike, Op
+from .array import Array1D, Array2D, BoolArray1D, BoolArray2D, IntArray1D, IntArray2D, _elementwise
+from .expr import BoolExpr, BoolExprLike, IntExpr, IntExprLike, Op, _make_bool_expr, _make_int_expr
 
 
 def flatten_iterator(*args: Any) -> Any:
@@ -120,16 +120,16 @@ def cond(
     t: Union[IntExprLike, IntArray1D, IntArray2D],
     f: Union[IntExprLike, IntArray1D, IntArray2D],
 ) -> Union[IntExpr, IntArray1D, IntArray2D]:
-    if isinstance(c, (BoolArray1D, BoolArray2D)):
-        shape = c.shape
-    elif isinstance(t, (IntArray1D, IntArray2D)):
-        shape = t.shape
-    elif isinstance(f, (IntArray1D, IntArray2D)):
-        shape = f.shape
+    res: Any
+    for operand in (c, t, f):
+        if isinstance(operand, (Array1D, Array2D)):
+            res = _elementwise(Op.IF, operand.shape, [c, t, f])  # type: ignore
+            break
     else:
-        return IntExpr(Op.IF, [c, t, f])
-
-    return _elementwise(Op.IF, shape, [c, t, f])  # type: ignore
+        res = _make_int_expr(Op.IF, [c, t, f])  # type: ignore
+    if res is NotImplemented:
+        raise TypeError("unsupported argument type(s) for 'cond'")
+    return res
 
 
 @overload
@@ -156,11 +156,13 @@ def then(
     x: Union[BoolExprLike, BoolArray1D, BoolArray2D],
     y: Union[BoolExprLike, BoolArray1D, BoolArray2D],
 ) -> Union[BoolExpr, BoolArray1D, BoolArray2D]:
-    if isinstance(x, (BoolArray1D, BoolArray2D)):
-        shape = x.shape
-    elif isinstance(y, (BoolArray1D, BoolArray2D)):
-        shape = y.shape
+    res: Any
+    for operand in (x, y):
+        if isinstance(operand, (Array1D, Array2D)):
+            res = _elementwise(Op.IMP, operand.shape, [x, y])  # type: ignore
+            break
     else:
-        return BoolExpr(Op.IMP, [x, y])
-
-    return _elementwise(Op.IMP, shape, [x, y])  # type: ignore
+        res = _make_bool_expr(Op.IMP, [x, y])  # type: ignore
+    if res is NotImplemented:
+        raise TypeError("unsupported argument type(s) for 'then'")
+    return res
